@@ -92,7 +92,9 @@ def attention(which):
   t0 = time.time()
   cases = []
   with SymEnv():
-    Lq, Lk, H, D = 2, 3, 1, 2
+    # which 1: depth 4 (sqrt(depth) rational: the whole query is linear arithmetic
+    # under the uninterpreted exp, so a wrong scaling order has an easy model)
+    Lq, Lk, H, D = ((2, 3, 1, 2), (1, 2, 1, 4), (2, 2, 2, 1))[which]
     for use_bias, use_mask in itertools.product((False, True), (False, True)):
       q = A.sym('q', (Lq, H, D))
       k = A.sym('k', (Lk, H, D))
@@ -479,9 +481,10 @@ def obligations(tier):
   F3 = qualnames(LR.flip_sequences, LR._select_last_carry, LR._expand_dims_like)
   obs = [Ob('attention_masks', _fam('masks'), dict(which=I(0, 0)), kind='smt', replay=replay_family,
             split=('which',), timeout=600, funcs=F1),
-         Ob('attention_weights_and_output', _fam('attention'), dict(which=I(0, 0)),
+         Ob('attention_weights_and_output', _fam('attention'), dict(which=I(0, 2)),
             kind='smt', replay=replay_family, split=('which',), timeout=900, funcs=F1,
-            bounds='q len 2, kv len 3, 1 head, depth 2; bias / mask on/off')]
+            bounds='(q len, kv len, heads, depth) in (2,3,1,2), (1,2,1,4), (2,2,2,1); '
+                   'bias / mask on/off')]
   for w, nm in enumerate(['LSTMCell', 'GRUCell', 'SimpleCell', 'MGUCell',
                           'OptimizedLSTMCell']):
     obs.append(Ob('cell_step_' + nm, _fam('cells'), dict(which=I(w, w)), kind='smt', replay=replay_family,
